@@ -1,10 +1,432 @@
+// c11 — harness for C11 (block processing is race-free and schedule independent).
+// This binary has two roles (same package, built twice):
+//   orchestrator (built by ./check without -race): asks the Lean oracle for the source-fact checks, builds
+//     the WORKER with `go build -race -tags verif` (cached under .work), runs it under GORACE with the
+//     race log captured, and judges what the worker observed: schedule-dependent verdict/tip/UTXO dump,
+//     every UTXO.db that became visible (header vs content), data-race reports, and the vhook event traces
+//     (checked by the Lean monitor = the invariants proved for the snapshot-protocol model). It also drives
+//     the Lean models themselves through random schedules (supporting exploration of the model).
+//   worker (`c11 worker …`, see worker.go): runs the real code.
 package main
 
-import "os"
+import (
+	"crypto/sha1"
+	"encoding/hex"
+	"encoding/json"
+	"fmt"
+	"os"
+	"os/exec"
+	"path/filepath"
+	"regexp"
+	"sort"
+	"strings"
+	"sync"
+
+	"verif/vlib"
+)
+
+type job struct {
+	Seed  uint64 `json:"seed"`
+	Shard int    `json:"shard"`
+	Tier  string `json:"tier"`
+	Only  string `json:"only"`
+}
+
+var r *vlib.Run
+
+func workDir() string { return vlib.Root() + "/.work" }
+
+func buildWorker() (string, error) {
+	suf, modflags := "", []string{}
+	if repo := strings.TrimRight(os.Getenv("VERIF_REPO"), "/"); repo != "" && repo != "/repo" {
+		h := sha1.Sum([]byte(repo))
+		suf = "_" + hex.EncodeToString(h[:])[:8]
+		modflags = []string{"-modfile=" + workDir() + "/go" + suf + ".mod"}
+	}
+	bin := workDir() + "/bin/c11_race" + suf
+	args := append([]string{"build"}, modflags...)
+	args = append(args, "-race", "-tags", "verif", "-o", bin, "./cmd/c11")
+	cmd := exec.Command("go", args...)
+	cmd.Dir = vlib.Root() + "/go"
+	cmd.Env = append(os.Environ(), "CGO_ENABLED=1")
+	out, err := cmd.CombinedOutput()
+	if err != nil {
+		return "", fmt.Errorf("go build -race failed: %v\n%s", err, string(out))
+	}
+	return bin, nil
+}
+
+type raceReport struct {
+	Key  string
+	Text string
+}
+
+var frameRe = regexp.MustCompile(`(?m)^  (\S+)\(`)
+
+func parseRaces(dir string) []raceReport {
+	files, _ := filepath.Glob(dir + "/race.*")
+	var res []raceReport
+	for _, f := range files {
+		b, _ := os.ReadFile(f)
+		for _, blk := range strings.Split(string(b), "==================") {
+			if !strings.Contains(blk, "WARNING: DATA RACE") {
+				continue
+			}
+			// the two access stacks are the first two paragraphs
+			paras := strings.Split(strings.TrimSpace(blk), "\n\n")
+			var fs []string
+			for _, p := range paras {
+				if len(fs) == 2 {
+					break
+				}
+				if !(strings.Contains(p, " at 0x") || strings.Contains(p, "by goroutine") || strings.Contains(p, "by main goroutine")) || strings.HasPrefix(strings.TrimSpace(p), "Goroutine") {
+					continue
+				}
+				fn := "?"
+				for _, m := range frameRe.FindAllStringSubmatch(p, -1) {
+					if strings.Contains(m[1], "piotrnar/gocoin") {
+						fn = m[1]
+						break
+					}
+					if fn == "?" {
+						fn = m[1]
+					}
+				}
+				fn = strings.TrimPrefix(fn, "github.com/piotrnar/gocoin/")
+				fs = append(fs, fn)
+			}
+			sort.Strings(fs)
+			t := strings.TrimSpace(blk)
+			if len(t) > 6000 {
+				t = t[:6000]
+			}
+			res = append(res, raceReport{Key: "race:" + strings.Join(fs, "|"), Text: t})
+		}
+	}
+	return res
+}
+
+func runWorker(bin string, j job, dir string) (*WorkerOut, []raceReport, error) {
+	jd := fmt.Sprintf("%s/s%d", dir, j.Shard)
+	os.MkdirAll(jd, 0755)
+	outp := jd + "/out.json"
+	args := []string{"worker", "-seed", fmt.Sprint(j.Seed), "-tier", j.Tier, "-out", outp, "-shard", fmt.Sprint(j.Shard)}
+	if j.Only != "" {
+		args = append(args, "-only", j.Only)
+	}
+	cmd := exec.Command(bin, args...)
+	cmd.Env = append(os.Environ(), "GORACE=halt_on_error=0 log_path="+jd+"/race", "TMPDIR="+jd)
+	lf, _ := os.Create(jd + "/log")
+	cmd.Stdout, cmd.Stderr = lf, lf
+	err := cmd.Run()
+	lf.Close()
+	b, rerr := os.ReadFile(outp)
+	if rerr != nil {
+		lg, _ := os.ReadFile(jd + "/log")
+		if len(lg) > 3000 {
+			lg = lg[len(lg)-3000:]
+		}
+		return nil, parseRaces(jd), fmt.Errorf("worker produced no result (%v): %s", err, string(lg))
+	}
+	var wo WorkerOut
+	if e := json.Unmarshal(b, &wo); e != nil {
+		return nil, nil, e
+	}
+	return &wo, parseRaces(jd), nil
+}
+
+var evLetter = map[string]byte{
+	"utxo.save:begin": 'b', "utxo.save:finito": 'f', "utxo.commit:before-commit": 'm',
+	"chain.commit:after-utxo": 'e', "chain.parse:after-utxo": 'e',
+	"utxo.save.file:created": 'c', "utxo.save.file:renamed": 'd', "utxo.save.file:abort-removed": 'd',
+}
+
+func judge(o *vlib.Oracle, j job, wo *WorkerOut, races []raceReport) {
+	rp := map[string]interface{}{"job": j}
+	if wo.Fatal != "" {
+		r.TieFail("worker-fatal", "the worker could not complete its scenario: "+wo.Fatal, rp)
+	}
+	for k, v := range wo.Hist {
+		for i := 0; i < v; i++ {
+			r.Hit(k)
+		}
+	}
+	for i, op := range wo.Ops {
+		if i >= 108 && i < 114 {
+			r.Sample(map[string]interface{}{"op": op, "reference": wo.Ref[i]})
+		}
+	}
+	for _, d := range wo.Diffs {
+		kind := strings.Fields(d.Note + " ?")[0]
+		r.PropFail("schedule-dependent:"+kind, fmt.Sprintf("under schedule %s op %d (%s) gave %+v, the sequential reference %+v", d.Cfg, d.Op, d.Note, d.Got, d.Ref),
+			map[string]interface{}{"job": j, "diff": d})
+	}
+	for _, rpl := range wo.Replays {
+		if rpl.Panic != "" {
+			r.PropFail("panic-under-schedule", "replay "+rpl.Cfg.Name+" panicked: "+rpl.Panic, map[string]interface{}{"job": j, "cfg": rpl.Cfg})
+		}
+		var sb strings.Builder
+		for _, e := range rpl.Events {
+			if c, ok := evLetter[e]; ok {
+				sb.WriteByte(c)
+			}
+		}
+		line := sb.String()
+		if line == "" {
+			line = "-"
+		}
+		rep := o.MustAsk("mon " + line)
+		r.Eval("trace:"+fmt.Sprintf("procs=%d", rpl.Cfg.Procs), fmt.Sprint(j.Seed, j.Shard, rpl.Cfg.Name, line))
+		if strings.HasPrefix(rep, "ok") {
+			r.TieOK()
+		} else {
+			f := strings.Fields(rep + " ? ?")
+			r.PropFail("protocol:"+f[2], "the vhook event trace of replay "+rpl.Cfg.Name+" violates an invariant of the snapshot protocol: "+rep,
+				map[string]interface{}{"job": j, "cfg": rpl.Cfg, "trace": line})
+		}
+		r.Hit(fmt.Sprintf("saves-per-replay:%d", min(rpl.Saves, 9)))
+	}
+	for _, s := range wo.Snaps {
+		key := fmt.Sprint(j.Seed, j.Shard, s.Cfg, s.Where, s.Hash, s.Dump)
+		if strings.HasPrefix(s.Err, "unreadable") && s.Where == "renamed" {
+			r.Hit("snapshot:moved-away-before-read")
+			continue
+		}
+		r.Eval("snapshot:"+s.Where, key)
+		switch {
+		case s.Err != "":
+			r.PropFail("snapshot-corrupt:"+s.Where, fmt.Sprintf("UTXO.db visible under schedule %s (%s) does not parse as a snapshot: %s (header height %d hash %s)", s.Cfg, s.Where, s.Err, s.Height, s.Hash),
+				map[string]interface{}{"job": j, "snapshot": s})
+		case s.WantH < 0:
+			r.PropFail("snapshot-unknown-block", fmt.Sprintf("UTXO.db under schedule %s names block %s @%d that was never the tip in the reference run", s.Cfg, s.Hash, s.Height),
+				map[string]interface{}{"job": j, "snapshot": s})
+		case s.Dump != s.Want || int64(s.Height) != s.WantH:
+			r.PropFail("snapshot-mismatch", fmt.Sprintf("UTXO.db under schedule %s has header (%d,%s) but its content (dump %s) is not the unspent set of that block (dump %s, height %d)", s.Cfg, s.Height, s.Hash, s.Dump, s.Want, s.WantH),
+				map[string]interface{}{"job": j, "snapshot": s})
+		default:
+			r.TieOK()
+		}
+	}
+	for _, rc := range races {
+		r.Hit("race-report")
+		r.PropFail(rc.Key, "the Go race detector reported a data race in the real code: "+rc.Key, map[string]interface{}{"job": j, "report": rc.Text})
+	}
+	// the commitTxs fan-out model against the real verdicts
+	g := vlib.NewRng(j.Seed*977 + uint64(j.Shard))
+	for _, c := range wo.Commit {
+		if !c.Model {
+			continue
+		}
+		var txs []string
+		for i, n := range c.Nins {
+			e := 0
+			if i == c.Early {
+				e = 1
+			}
+			txs = append(txs, fmt.Sprintf("%d.2.%d.-", n, e))
+		}
+		bad := "-"
+		if len(c.Bad) > 0 {
+			var bs []string
+			for _, b := range c.Bad {
+				bs = append(bs, fmt.Sprintf("%d_%d", b[0], b[1]))
+			}
+			bad = strings.Join(bs, ",")
+		}
+		// a random fair schedule: main and workers interleaved, then drain
+		var labs []string
+		tot := 0
+		for _, n := range c.Nins {
+			tot += n
+		}
+		for i := 0; i < 3*(len(c.Nins)+tot)+8; i++ {
+			if g.Chance(1, 3) {
+				labs = append(labs, "M")
+			} else {
+				labs = append(labs, fmt.Sprint(g.Intn(4)))
+			}
+		}
+		for i := 0; i < tot+len(c.Nins)+4; i++ {
+			labs = append(labs, "0", "M")
+		}
+		rep := o.MustAsk("fan 1 " + strings.Join(txs, ",") + " " + bad + " " + strings.Join(labs, ","))
+		f := strings.Fields(rep)
+		var want string
+		switch {
+		case c.Verdict == "ok":
+			want = "- 0"
+		case strings.Contains(c.Verdict, "VerifyScripts failed"):
+			var n int
+			fmt.Sscanf(c.Verdict[strings.Index(c.Verdict, "VerifyScripts failed")+len("VerifyScripts failed"):], "%d", &n)
+			want = fmt.Sprintf("- %d", n)
+		default:
+			want = "early"
+		}
+		got := "?"
+		if len(f) == 5 && f[0] == "ok" {
+			if f[1] != "-" {
+				got = "early"
+			} else {
+				got = f[1] + " " + f[2]
+			}
+			if f[1] != f[3] || (f[1] == "-" && f[2] != f[4]) {
+				r.TieFail("fan-model-schedule", "the Lean fan-out model gave a schedule-dependent verdict: "+rep, map[string]interface{}{"case": c})
+			}
+		}
+		r.Eval("fan-model:"+strings.Fields(c.Note)[0], fmt.Sprint(j.Seed, j.Shard, c.Note, c.Verdict))
+		if got == want {
+			r.TieOK()
+		} else {
+			r.TieFail("fan-model", fmt.Sprintf("commitTxs verdict %q (class %q) but the fan-out model says %q (%s)", c.Verdict, want, got, rep), map[string]interface{}{"job": j, "case": c})
+		}
+	}
+}
+
+// exploreModel drives the Lean snapshot-protocol model through random programs and schedules.
+func exploreModel(o *vlib.Oracle, n int) {
+	g := r.Rng.Fork()
+	mops, xops := "ciahsc", "ha"
+	labs := "mmmmxxsssssAHfffE123"
+	for i := 0; i < n; i++ {
+		var mp, xp, ls strings.Builder
+		for k := g.Intn(7); k >= 0; k-- {
+			mp.WriteByte(mops[g.Intn(len(mops))])
+		}
+		if g.Bool() {
+			mp.WriteByte('x')
+		}
+		for k := g.Intn(4); k > 0; k-- {
+			xp.WriteByte(xops[g.Intn(len(xops))])
+		}
+		for k := 20 + g.Intn(200); k > 0; k-- {
+			ls.WriteByte(labs[g.Intn(len(labs))])
+		}
+		// fair suffix so that every run can finish
+		for k := 0; k < 60; k++ {
+			ls.WriteString("mxs1Hf")
+		}
+		x := xp.String()
+		if x == "" {
+			x = "-"
+		}
+		line := fmt.Sprintf("snap %s %s %d %s", mp.String(), x, 1+g.Intn(3), ls.String())
+		rep := o.MustAsk(line)
+		f := strings.Fields(rep)
+		r.Eval("model-schedule", line)
+		if len(f) != 6 || f[0] != "ok" || f[2] != "1" || f[3] != "1" {
+			r.TieFail("model-invariant", "the snapshot-protocol model violates its own invariant on an explored schedule: "+rep, map[string]interface{}{"request": line})
+		} else if f[4] != "1" && f[5] != "1" {
+			r.TieFail("model-deadlock", "the snapshot-protocol model is stuck in a non-final state: "+rep, map[string]interface{}{"request": line})
+		} else if f[4] != "1" {
+			r.Hit("model-run-not-finished")
+		} else {
+			r.Hit("model-run-final:visible=" + f[1])
+		}
+	}
+}
+
+func min(a, b int) int {
+	if a < b {
+		return a
+	}
+	return b
+}
 
 func main() {
 	if len(os.Args) > 1 && os.Args[1] == "worker" {
 		workerMain(os.Args[2:])
 		return
 	}
+	r = vlib.NewRun("C11")
+	o, err := vlib.StartOracle("c11")
+	if err != nil {
+		fmt.Fprintln(os.Stderr, "cannot start oracle:", err)
+		os.Exit(3)
+	}
+	defer o.Close()
+	r.Assume = []string{
+		"UnspentDB.Save/Idle/Close/CommitBlockTxs/UndoBlockTxs are called from one goroutine (gocoin's main loop); other goroutines only call HurryUp and AbortWriting — a direct Save() (no db.Mutex) racing a commit on ANOTHER goroutine is outside the model: abortWriting could then pass writingDone.Wait before Save's Add(1)",
+		"os.Create of the snapshot file succeeds (on failure the file goroutine returns without lastFileClosed.Done and Close would wait for ever)",
+		"memory-level data races are observed only through the Go race detector on the schedules that were run",
+	}
+	rep := o.MustAsk("facts")
+	if !strings.HasPrefix(rep, "ok 1 1") {
+		r.TieFail("source-facts", "the synchronisation facts extracted from the source no longer satisfy the lock-discipline / protocol-shape checks of the model: "+rep, map[string]interface{}{"oracle": rep})
+	} else {
+		r.TieOK()
+	}
+	exploreModel(o, r.N(400, 6000))
+
+	bin, err := buildWorker()
+	if err != nil {
+		r.TieFail("race-build", err.Error(), nil)
+		r.Finish("n/a", "the -race build of the worker failed")
+	}
+	dir, _ := os.MkdirTemp("", "vc11")
+	defer os.RemoveAll(dir)
+	var jobs []job
+	if r.Replay != "" {
+		b, _ := os.ReadFile(r.Replay)
+		var doc struct {
+			Replay struct {
+				Job job `json:"job"`
+			} `json:"replay"`
+		}
+		json.Unmarshal(b, &doc)
+		if doc.Replay.Job.Tier == "" {
+			doc.Replay.Job = job{Seed: r.Seed, Tier: "quick"}
+		}
+		jobs = []job{doc.Replay.Job}
+	} else if r.Thorough() {
+		for s := 0; s < 8; s++ {
+			j := job{Seed: r.Seed, Shard: s, Tier: "thorough", Only: "chain"}
+			if s == 0 {
+				j.Only = ""
+			}
+			jobs = append(jobs, j)
+		}
+	} else {
+		jobs = []job{{Seed: r.Seed, Shard: 0, Tier: "quick", Only: "resave"}, {Seed: r.Seed, Shard: 0, Tier: "quick", Only: "chain"}, {Seed: r.Seed, Shard: 1, Tier: "quick", Only: "chain"}}
+	}
+	type result struct {
+		j     job
+		wo    *WorkerOut
+		races []raceReport
+		err   error
+	}
+	res := make([]result, len(jobs))
+	var wg sync.WaitGroup
+	sem := make(chan bool, 4)
+	for i := range jobs {
+		wg.Add(1)
+		go func(i int) {
+			defer wg.Done()
+			sem <- true
+			jd := fmt.Sprintf("%s/j%d", dir, i)
+			os.MkdirAll(jd, 0755)
+			wo, races, err := runWorker(bin, jobs[i], jd)
+			res[i] = result{jobs[i], wo, races, err}
+			<-sem
+		}(i)
+	}
+	wg.Wait()
+	nrep := 0
+	for _, x := range res {
+		if x.err != nil {
+			r.TieFail("worker-crash", x.err.Error(), map[string]interface{}{"job": x.j})
+			for _, rc := range x.races {
+				r.PropFail(rc.Key, "the Go race detector reported a data race in the real code: "+rc.Key, map[string]interface{}{"job": x.j, "report": rc.Text})
+			}
+			continue
+		}
+		judge(o, x.j, x.wo, x.races)
+		nrep += len(x.wo.Replays)
+	}
+	r.Extra["race_build"] = "go build -race -tags verif ./cmd/c11 (worker), GORACE=halt_on_error=0"
+	r.Extra["replays_under_perturbed_schedules"] = nrep
+	r.Finish("cases: (1) every UTXO.db that became visible in a replay of the real code under a perturbed schedule (distinct by schedule, tip, content); "+
+		"(2) one vhook event trace per replay, checked by the Lean monitor; (3) commitTxs verdicts compared with the Lean fan-out model under a random schedule; "+
+		"(4) random programs x schedules of the Lean snapshot-protocol model (distinct by request). Non-trivial: a snapshot file with records, a trace with at least one save, a block with transactions, a model run with at least one step.",
+		"Level other: the synchronisation protocols (snapshot writer vs committer, commitTxs fan-out, BlockDB publish-last, disjoint-key updates, atomic sums, compute-once caches) are modelled as transition systems with an arbitrary scheduler and their invariants are proved in Lean for all interleavings; the lock discipline is checked by kernel evaluation on the synchronisation sequences regenerated from the source. "+
+			"What no executable Lean model exhibits — and is therefore only explored, not proved — is the Go memory model itself: word tearing and reordering of unsynchronised accesses, the real goroutine scheduler, map-iteration order, and OS file semantics (two writers on one inode). Those are covered by running the real code under the race detector with GOMAXPROCS 1..16 and pseudo-random yields/sleeps at every vhook point, which samples schedules and proves nothing about the ones not run.")
 }
